@@ -181,7 +181,10 @@ pub fn run(ctx: &Ctx) -> Value {
     let mut counts = Map::new();
     let mut add = |k: &str, n: usize| { let e = counts.entry(k.to_string()).or_insert(json!(0)); *e = json!(e.as_u64().unwrap() + n as u64); };
     // ---- string-form types
-    let ds = c09::dates(&mut rng, ctx.t(150, 10_000));
+    let mut ds = c09::dates(&mut rng, ctx.t(150, 10_000));
+    // digit-pair witnesses, and a sequence in which consecutive values share a component (one-entry memos inside a writer)
+    ds.extend(pair_witnesses().iter().map(|x| x.date()));
+    ds.extend(memo_sequence());
     for d in &ds { add("date", serde_events(&mut tw, "date", json!({"n": dn(*d)}), d, &|b: &NaiveDate| json!({"n": dn(*b)}), &nodev)); }
     let ts = c09::times(&mut rng, ctx.t(150, 10_000));
     for t in ts.iter().step_by(ctx.t(3, 1)) { add("time", serde_events(&mut tw, "time", json!({"t": tod(*t)}), t, &|b: &NaiveTime| tod(*b), &nodev)); }
@@ -189,6 +192,8 @@ pub fn run(ctx: &Ctx) -> Value {
     let mut ndts: Vec<NaiveDateTime> = Vec::new();
     for d in ds.iter().take(c09::YEARS.len() * 10) { for t in &ft { ndts.push(d.and_time(*t)); } }
     for _ in 0..ctx.t(300, 10_000) { ndts.push(rng.pick(&ds).and_time(*rng.pick(&ts))); }
+    if !ctx.quick() { ndts.extend(pair_witnesses()); } else { let w = pair_witnesses(); for (i, x) in w.iter().enumerate() { ndts.push(*x); ndts.push(w[(i + 50) % 100]); } }
+    for (i, d) in memo_sequence().into_iter().enumerate() { ndts.push(d.and_time(ft[0])); ndts.push(d.and_time(ft[i % 2 * 5])); }
     for v in ndts.iter().step_by(ctx.t(2, 1)) {
         add("ndt", serde_events(&mut tw, "ndt", json!({"v": ndt(*v)}), v, &|b: &NaiveDateTime| ndt(*b), &nodev));
     }
